@@ -271,19 +271,32 @@ def rule_byte_info_confined(ctx, fx, config):
     acc_ok = re.compile(r"^miette::|^<?de::spanned_deser::|^<de::spanned_deser::")
     n = 0
     for f in sorted(fx.fns.values(), key=lambda g: g.npath):
+        # a *read* (or a write) of the field: a place with a `.byte_info` projection — in a statement's source or destination,
+        # in a call argument or a switch operand.  Passing a value on under that name, or building a Span from it, reads nothing.
+        def touches(x):
+            if isinstance(x, dict):
+                if "l" in x and "pr" in x and any(isinstance(e, dict) and e.get("f") == "byte_info" for e in x["pr"]):
+                    return True
+                return any(touches(v) for v in x.values())
+            if isinstance(x, list):
+                return any(touches(v) for v in x)
+            return False
         reads = False
         for b, i, s_ in f.stmts():
-            if s_["k"] == "assign" and ("byte_info" in render(f.sym_rvalue(s_["rv"])) or "byte_info" in render(f.sym_place(s_["p"]))):
+            if s_["k"] == "assign" and (touches(s_["rv"]) or touches(s_["p"])):
                 reads = True
-        for b, t in f.calls():
-            if any("byte_info" in render(f.sym_operand(a)) for a in t["args"]):
+        for b in f.live_blocks:
+            t = f.blocks[b]["term"]
+            if t["k"] == "call" and touches(t["args"]):
                 reads = True
+            # (a `switch` directly on the field is a structural pattern match against a constant location — `Location::UNKNOWN`
+            #  compares every field — and decides nothing that depends on the offsets)
         if reads:
             n += 1
             ctx.saw(f)
             ctx.check(bool(direct_ok.search(f.npath)), "WHO-READS", "C09:WHO-READS:byte-info:%s" % f.npath, "byte_info is touched by a Span accessor / derived impl / the Spanned exposure",
                       "%s reads the byte offsets of a location directly: they are `(0, 0)` for every reader event, so whatever it decides differs between reader and string input" % f.npath, config, ctx.where(f))
-    ctx.floor("WHO-READS.byte-info-touchers", n, 8, config)
+    ctx.floor("WHO-READS.byte-info-touchers", n, 7, config)
     for acc in ("location::Span::byte_len", "location::Span::byte_offset", "location::Span::raw_byte_info"):
         for g, b in fx.callers.get(acc, []):
             ctx.check(bool(acc_ok.search(g.npath)), "WHO-READS", "C09:WHO-READS:byte-info-accessor:%s" % g.npath, "%s is called by the Spanned exposure / the miette source-span conversion" % last_seg(acc),
